@@ -3,7 +3,7 @@ CONSTANTS
   OORD <- c_OORD
   KORD <- c_KORD5
   GENVALS <- c_GENVALS
-  DEVS <- c_DEVS_code
+  DEVS <- c_DEVS_guard
   DECI = 0
   PREC = 1
   AMOUNTS = {1}
